@@ -1,7 +1,8 @@
-package props
+package c11
 
 import (
 	"fmt"
+	"sort"
 	"strconv"
 	"strings"
 
@@ -456,7 +457,7 @@ func c11Class(in, obs string) string {
 	for k := range sig {
 		ks = append(ks, k)
 	}
-	sortStrings(ks)
+	sort.Strings(ks)
 	return f[1][:1] + ":" + strings.Join(ks, "") + fmt.Sprintf(":%d", len(ops)/8)
 }
 
